@@ -25,10 +25,34 @@ struct nni_aio_expire_q {
 	nni_time eq_next; // next expiration
 	bool     eq_exit;
 	bool     eq_stop;
+#ifdef NNG_VERIF
+	bool eq_verif_kick; // verification hook H4: a clock change is being processed
+#endif
 };
 
 static nni_aio_expire_q **nni_aio_expire_q_list;
 static int                nni_aio_expire_q_cnt;
+
+#ifdef NNG_VERIF
+// Verification hook H4 (add-only): after the virtual clock has been advanced,
+// wake every expire thread; each counts as in-flight work (hook H2q) until it
+// has found nothing more to expire.
+extern nni_atomic_int nni_verif_inflight;
+void
+nni_verif_expire_kick(void)
+{
+	for (int i = 0; i < nni_aio_expire_q_cnt; i++) {
+		nni_aio_expire_q *q = nni_aio_expire_q_list[i];
+		nni_mtx_lock(&q->eq_mtx);
+		if (!q->eq_verif_kick) {
+			q->eq_verif_kick = true;
+			nni_atomic_inc(&nni_verif_inflight);
+		}
+		nni_cv_wake(&q->eq_cv);
+		nni_mtx_unlock(&q->eq_mtx);
+	}
+}
+#endif
 
 // Design notes.
 //
@@ -647,6 +671,12 @@ nni_aio_expire_loop(void *arg)
 		}
 		if (now < next && !(q->eq_stop && aio != NULL)) {
 			// nothing to do!
+#ifdef NNG_VERIF
+			if (q->eq_verif_kick) {
+				q->eq_verif_kick = false;
+				nni_atomic_dec(&nni_verif_inflight);
+			}
+#endif
 			nni_cv_until(cv, next);
 			continue;
 		}
